@@ -9,7 +9,12 @@
                         otherwise           -> cond.Wait() }                       ; unlock
      Put:  lock; push [item, now]; cond.Signal(); unlock
 
-   create / destroy are harness callbacks and publish their event while the lock is held.
+   create / destroy are harness callbacks and publish their event while the lock is held: a Get
+   that arrives while a callback is running waits for the lock (driven on the real code by the
+   schedules of PoolGen, where a second Get is started from inside the callback).  Variant
+   "destroy_unlocked" (PoolImplBugUnlocked.cfg, expected counterexample) is the class of defect
+   in which a slow callback is run with the lock released and the list / counter are updated
+   afterwards: two Gets destroy the same resource, `created` goes below the truth.
    After all users are done a prober asks for n+1 resources one after the other and keeps
    them: the first n must be handed out without parking, the last one must park (NoLeak).   *)
 EXTENDS Semaphore
@@ -29,14 +34,17 @@ Last == 101 + Cap
   macro emit(r) { ev := r; evn := evn + 1; }
 
   process (u \in Procs \cup PU)
-    variables rnd = 0, item = [id |-> 0, used |-> 0];
+    variables rnd = 0, item = [id |-> 0, used |-> 0], rest = <<>>;
   {
   g0: while (rnd < (IF self \in PU THEN 1 ELSE Rounds)) {
         await self \in Procs \/ (probing /\ turn = self);
         rnd := rnd + 1;
         emit([e |-> "acqStart", p |-> Ticket(self, rnd), mode |-> "block"]);
   g1:   await lock = 0; lock := self;
-  g2:   if (idle # <<>>) {
+  g2:   if (idle # <<>> /\ Variant = "destroy_unlocked" /\ MaxAge > 0 /\ Head(idle).used + MaxAge < now) {
+          \* the class "a callback runs with the lock released and the books are done afterwards"
+          item := Head(idle); rest := Tail(idle); lock := 0; goto gd1;
+        } else if (idle # <<>>) {
           item := Head(idle);
           if (Variant # "get_nopop") { idle := Tail(idle); };
           if (MaxAge > 0 /\ item.used + MaxAge < now) {
@@ -56,6 +64,8 @@ Last == 101 + Cap
         };
   g3:   await self \in signaled; signaled := signaled \ {self};
   g4:   await lock = 0; lock := self; goto g2;
+  gd1:  emit([e |-> "destroy", r |-> item.id]);
+  gd2:  await lock = 0; lock := self; idle := rest; created := created - 1; goto g2;
   g5:   lock := 0;
   g6:   emit([e |-> "acqEnd", p |-> Ticket(self, rnd), ok |-> TRUE, r |-> item.id, code |-> 0]);
   g7:   emit(Ev("enter", Ticket(self, rnd)));
@@ -88,10 +98,10 @@ Last == 101 + Cap
 } *)
 \* BEGIN TRANSLATION
 VARIABLES pc, lock, waitq, signaled, created, idle, now, nextRes, probing, 
-          turn, evn, ev, rnd, item
+          turn, evn, ev, rnd, item, rest
 
 vars == << pc, lock, waitq, signaled, created, idle, now, nextRes, probing, 
-           turn, evn, ev, rnd, item >>
+           turn, evn, ev, rnd, item, rest >>
 
 ProcSet == (Procs \cup PU) \cup {0} \cup {100}
 
@@ -110,6 +120,7 @@ Init == (* Global variables *)
         (* Process u *)
         /\ rnd = [self \in Procs \cup PU |-> 0]
         /\ item = [self \in Procs \cup PU |-> [id |-> 0, used |-> 0]]
+        /\ rest = [self \in Procs \cup PU |-> <<>>]
         /\ pc = [self \in ProcSet |-> CASE self \in Procs \cup PU -> "g0"
                                         [] self = 0 -> "c0"
                                         [] self = 100 -> "q0"]
@@ -124,51 +135,59 @@ g0(self) == /\ pc[self] = "g0"
                   ELSE /\ pc' = [pc EXCEPT ![self] = "Done"]
                        /\ UNCHANGED << evn, ev, rnd >>
             /\ UNCHANGED << lock, waitq, signaled, created, idle, now, nextRes, 
-                            probing, turn, item >>
+                            probing, turn, item, rest >>
 
 g1(self) == /\ pc[self] = "g1"
             /\ lock = 0
             /\ lock' = self
             /\ pc' = [pc EXCEPT ![self] = "g2"]
             /\ UNCHANGED << waitq, signaled, created, idle, now, nextRes, 
-                            probing, turn, evn, ev, rnd, item >>
+                            probing, turn, evn, ev, rnd, item, rest >>
 
 g2(self) == /\ pc[self] = "g2"
-            /\ IF idle # <<>>
+            /\ IF idle # <<>> /\ Variant = "destroy_unlocked" /\ MaxAge > 0 /\ Head(idle).used + MaxAge < now
                   THEN /\ item' = [item EXCEPT ![self] = Head(idle)]
-                       /\ IF Variant # "get_nopop"
-                             THEN /\ idle' = Tail(idle)
-                             ELSE /\ TRUE
+                       /\ rest' = [rest EXCEPT ![self] = Tail(idle)]
+                       /\ lock' = 0
+                       /\ pc' = [pc EXCEPT ![self] = "gd1"]
+                       /\ UNCHANGED << waitq, created, idle, nextRes, turn, 
+                                       evn, ev >>
+                  ELSE /\ IF idle # <<>>
+                             THEN /\ item' = [item EXCEPT ![self] = Head(idle)]
+                                  /\ IF Variant # "get_nopop"
+                                        THEN /\ idle' = Tail(idle)
+                                        ELSE /\ TRUE
+                                             /\ idle' = idle
+                                  /\ IF MaxAge > 0 /\ item'[self].used + MaxAge < now
+                                        THEN /\ IF Variant # "expire_nodec"
+                                                   THEN /\ created' = created - 1
+                                                   ELSE /\ TRUE
+                                                        /\ UNCHANGED created
+                                             /\ ev' = [e |-> "destroy", r |-> item'[self].id]
+                                             /\ evn' = evn + 1
+                                             /\ pc' = [pc EXCEPT ![self] = "g2"]
+                                        ELSE /\ pc' = [pc EXCEPT ![self] = "g5"]
+                                             /\ UNCHANGED << created, evn, ev >>
+                                  /\ UNCHANGED << lock, waitq, nextRes, turn >>
+                             ELSE /\ IF created < Cap
+                                        THEN /\ created' = created + 1
+                                             /\ item' = [item EXCEPT ![self] = [id |-> nextRes, used |-> now]]
+                                             /\ nextRes' = nextRes + 1
+                                             /\ ev' = [e |-> "create", r |-> item'[self].id]
+                                             /\ evn' = evn + 1
+                                             /\ pc' = [pc EXCEPT ![self] = "g5"]
+                                             /\ UNCHANGED << lock, waitq, turn >>
+                                        ELSE /\ lock' = 0
+                                             /\ waitq' = (waitq \cup {self})
+                                             /\ IF self \in PU
+                                                   THEN /\ turn' = turn + 1
+                                                   ELSE /\ TRUE
+                                                        /\ turn' = turn
+                                             /\ pc' = [pc EXCEPT ![self] = "g3"]
+                                             /\ UNCHANGED << created, nextRes, 
+                                                             evn, ev, item >>
                                   /\ idle' = idle
-                       /\ IF MaxAge > 0 /\ item'[self].used + MaxAge < now
-                             THEN /\ IF Variant # "expire_nodec"
-                                        THEN /\ created' = created - 1
-                                        ELSE /\ TRUE
-                                             /\ UNCHANGED created
-                                  /\ ev' = [e |-> "destroy", r |-> item'[self].id]
-                                  /\ evn' = evn + 1
-                                  /\ pc' = [pc EXCEPT ![self] = "g2"]
-                             ELSE /\ pc' = [pc EXCEPT ![self] = "g5"]
-                                  /\ UNCHANGED << created, evn, ev >>
-                       /\ UNCHANGED << lock, waitq, nextRes, turn >>
-                  ELSE /\ IF created < Cap
-                             THEN /\ created' = created + 1
-                                  /\ item' = [item EXCEPT ![self] = [id |-> nextRes, used |-> now]]
-                                  /\ nextRes' = nextRes + 1
-                                  /\ ev' = [e |-> "create", r |-> item'[self].id]
-                                  /\ evn' = evn + 1
-                                  /\ pc' = [pc EXCEPT ![self] = "g5"]
-                                  /\ UNCHANGED << lock, waitq, turn >>
-                             ELSE /\ lock' = 0
-                                  /\ waitq' = (waitq \cup {self})
-                                  /\ IF self \in PU
-                                        THEN /\ turn' = turn + 1
-                                        ELSE /\ TRUE
-                                             /\ turn' = turn
-                                  /\ pc' = [pc EXCEPT ![self] = "g3"]
-                                  /\ UNCHANGED << created, nextRes, evn, ev, 
-                                                  item >>
-                       /\ idle' = idle
+                       /\ rest' = rest
             /\ UNCHANGED << signaled, now, probing, rnd >>
 
 g3(self) == /\ pc[self] = "g3"
@@ -176,27 +195,43 @@ g3(self) == /\ pc[self] = "g3"
             /\ signaled' = signaled \ {self}
             /\ pc' = [pc EXCEPT ![self] = "g4"]
             /\ UNCHANGED << lock, waitq, created, idle, now, nextRes, probing, 
-                            turn, evn, ev, rnd, item >>
+                            turn, evn, ev, rnd, item, rest >>
 
 g4(self) == /\ pc[self] = "g4"
             /\ lock = 0
             /\ lock' = self
             /\ pc' = [pc EXCEPT ![self] = "g2"]
             /\ UNCHANGED << waitq, signaled, created, idle, now, nextRes, 
-                            probing, turn, evn, ev, rnd, item >>
+                            probing, turn, evn, ev, rnd, item, rest >>
+
+gd1(self) == /\ pc[self] = "gd1"
+             /\ ev' = [e |-> "destroy", r |-> item[self].id]
+             /\ evn' = evn + 1
+             /\ pc' = [pc EXCEPT ![self] = "gd2"]
+             /\ UNCHANGED << lock, waitq, signaled, created, idle, now, 
+                             nextRes, probing, turn, rnd, item, rest >>
+
+gd2(self) == /\ pc[self] = "gd2"
+             /\ lock = 0
+             /\ lock' = self
+             /\ idle' = rest[self]
+             /\ created' = created - 1
+             /\ pc' = [pc EXCEPT ![self] = "g2"]
+             /\ UNCHANGED << waitq, signaled, now, nextRes, probing, turn, evn, 
+                             ev, rnd, item, rest >>
 
 g5(self) == /\ pc[self] = "g5"
             /\ lock' = 0
             /\ pc' = [pc EXCEPT ![self] = "g6"]
             /\ UNCHANGED << waitq, signaled, created, idle, now, nextRes, 
-                            probing, turn, evn, ev, rnd, item >>
+                            probing, turn, evn, ev, rnd, item, rest >>
 
 g6(self) == /\ pc[self] = "g6"
             /\ ev' = [e |-> "acqEnd", p |-> Ticket(self, rnd[self]), ok |-> TRUE, r |-> item[self].id, code |-> 0]
             /\ evn' = evn + 1
             /\ pc' = [pc EXCEPT ![self] = "g7"]
             /\ UNCHANGED << lock, waitq, signaled, created, idle, now, nextRes, 
-                            probing, turn, rnd, item >>
+                            probing, turn, rnd, item, rest >>
 
 g7(self) == /\ pc[self] = "g7"
             /\ ev' = Ev("enter", Ticket(self, rnd[self]))
@@ -207,7 +242,7 @@ g7(self) == /\ pc[self] = "g7"
                   ELSE /\ pc' = [pc EXCEPT ![self] = "g8"]
                        /\ turn' = turn
             /\ UNCHANGED << lock, waitq, signaled, created, idle, now, nextRes, 
-                            probing, rnd, item >>
+                            probing, rnd, item, rest >>
 
 g8(self) == /\ pc[self] = "g8"
             /\ \E h \in {"ret", "panic"}:
@@ -215,21 +250,21 @@ g8(self) == /\ pc[self] = "g8"
                  /\ evn' = evn + 1
             /\ pc' = [pc EXCEPT ![self] = "g9"]
             /\ UNCHANGED << lock, waitq, signaled, created, idle, now, nextRes, 
-                            probing, turn, rnd, item >>
+                            probing, turn, rnd, item, rest >>
 
 g9(self) == /\ pc[self] = "g9"
             /\ ev' = Ev("relStart", Ticket(self, rnd[self]))
             /\ evn' = evn + 1
             /\ pc' = [pc EXCEPT ![self] = "p1"]
             /\ UNCHANGED << lock, waitq, signaled, created, idle, now, nextRes, 
-                            probing, turn, rnd, item >>
+                            probing, turn, rnd, item, rest >>
 
 p1(self) == /\ pc[self] = "p1"
             /\ lock = 0
             /\ lock' = self
             /\ pc' = [pc EXCEPT ![self] = "p2"]
             /\ UNCHANGED << waitq, signaled, created, idle, now, nextRes, 
-                            probing, turn, evn, ev, rnd, item >>
+                            probing, turn, evn, ev, rnd, item, rest >>
 
 p2(self) == /\ pc[self] = "p2"
             /\ idle' = <<[id |-> item[self].id, used |-> now]>> \o idle
@@ -242,18 +277,18 @@ p2(self) == /\ pc[self] = "p2"
             /\ lock' = 0
             /\ pc' = [pc EXCEPT ![self] = "p3"]
             /\ UNCHANGED << created, now, nextRes, probing, turn, evn, ev, rnd, 
-                            item >>
+                            item, rest >>
 
 p3(self) == /\ pc[self] = "p3"
             /\ ev' = [e |-> "relEnd", p |-> Ticket(self, rnd[self]), err |-> FALSE]
             /\ evn' = evn + 1
             /\ pc' = [pc EXCEPT ![self] = "g0"]
             /\ UNCHANGED << lock, waitq, signaled, created, idle, now, nextRes, 
-                            probing, turn, rnd, item >>
+                            probing, turn, rnd, item, rest >>
 
 u(self) == g0(self) \/ g1(self) \/ g2(self) \/ g3(self) \/ g4(self)
-              \/ g5(self) \/ g6(self) \/ g7(self) \/ g8(self) \/ g9(self)
-              \/ p1(self) \/ p2(self) \/ p3(self)
+              \/ gd1(self) \/ gd2(self) \/ g5(self) \/ g6(self) \/ g7(self)
+              \/ g8(self) \/ g9(self) \/ p1(self) \/ p2(self) \/ p3(self)
 
 c0 == /\ pc[0] = "c0"
       /\ IF now < MaxClock
@@ -262,7 +297,7 @@ c0 == /\ pc[0] = "c0"
             ELSE /\ pc' = [pc EXCEPT ![0] = "Done"]
                  /\ now' = now
       /\ UNCHANGED << lock, waitq, signaled, created, idle, nextRes, probing, 
-                      turn, evn, ev, rnd, item >>
+                      turn, evn, ev, rnd, item, rest >>
 
 clk == c0
 
@@ -273,7 +308,7 @@ q0 == /\ pc[100] = "q0"
       /\ probing' = TRUE
       /\ pc' = [pc EXCEPT ![100] = "q1"]
       /\ UNCHANGED << lock, waitq, signaled, created, idle, now, nextRes, turn, 
-                      rnd, item >>
+                      rnd, item, rest >>
 
 q1 == /\ pc[100] = "q1"
       /\ turn > Last
@@ -281,7 +316,7 @@ q1 == /\ pc[100] = "q1"
       /\ evn' = evn + 1
       /\ pc' = [pc EXCEPT ![100] = "Done"]
       /\ UNCHANGED << lock, waitq, signaled, created, idle, now, nextRes, 
-                      probing, turn, rnd, item >>
+                      probing, turn, rnd, item, rest >>
 
 prober == q0 \/ q1
 
@@ -316,5 +351,5 @@ CreatedIsLive == created = Cardinality(live)
 \* NoLeak, design level: a run never gets stuck before the probe is complete (a user or one of
 \* the first n probe users parked for good = capacity lost)
 DeadEndsAreProbed == (~ENABLED Next) => phase = "probed"
-View == <<lock, waitq, signaled, created, idle, now, nextRes, probing, turn, pc, rnd, item, svars, bad>>
+View == <<lock, waitq, signaled, created, idle, now, nextRes, probing, turn, pc, rnd, item, rest, svars, bad>>
 =============================================================================
